@@ -550,6 +550,19 @@ class Exec:
                 cont, key = cur, st[1]
             elif k == 'variant':
                 pass
+            elif k in ('idx', 'i', 'cidx') and isinstance(cur, Agg) and cur.kind == 'SliceView':
+                # element of a sub-slice view (base reference, start, end): redirect into the underlying list
+                i = frame[st[1]].v if k == 'idx' else st[1]
+                if is_sym(i):
+                    raise Unsupported('symbolic index')
+                base, s0, e0 = cur.f
+                if i >= e0 - s0:
+                    raise RustPanic('index out of bounds')
+                bc, bk = self._walk(base.cell, base.path)
+                lst = bc.v if bk is None else bc.f[bk]
+                if s0 + i >= len(lst.f):
+                    raise Unsupported('dangling element reference')
+                cont, key = lst, s0 + i
             elif k == 'idx':
                 i = frame[st[1]].v
                 if is_sym(i):
@@ -685,6 +698,8 @@ class Exec:
                 return -x
             if op == 'PtrMetadata':
                 v = self.deref_all(x)
+                if isinstance(v, Agg) and v.kind == 'SliceView':
+                    return v.f[2] - v.f[1]
                 return len(v.f)
             raise Unsupported(op)
         if k == 'cast':
@@ -698,6 +713,8 @@ class Exec:
         if k == 'len':
             p = rv.args[0]
             v = self.load(frame[p.local], p.proj, frame)
+            if isinstance(v, Agg) and v.kind == 'SliceView':
+                return v.f[2] - v.f[1]
             return len(v.f)
         raise Unsupported('rvalue ' + k + ' ' + rv.text)
 
